@@ -18,6 +18,7 @@ import (
 	"errors"
 	"fmt"
 	"log"
+	"math"
 	"reflect"
 	"strconv"
 	"strings"
@@ -427,6 +428,9 @@ func handleIncr(params internal.HandlerFuncParams) ([]byte, error) {
 			fmt.Printf("unexpected type for currentValue: %T\n", currentValue)
 			return nil, errors.New("unexpected type for currentValue") // Handle unexpected types
 		}
+		if currentValueInt == math.MaxInt64 {
+			return nil, errors.New("increment or decrement would overflow")
+		}
 		newValue = currentValueInt + 1 // Increment the value
 	}
 
@@ -473,6 +477,9 @@ func handleDecr(params internal.HandlerFuncParams) ([]byte, error) {
 		default:
 			fmt.Printf("unexpected type for currentValue: %T\n", currentValue)
 			return nil, errors.New("unexpected type for currentValue") // Handle unexpected types
+		}
+		if currentValueInt == math.MinInt64 {
+			return nil, errors.New("increment or decrement would overflow")
 		}
 		newValue = currentValueInt - 1 // Decrement the value
 	}
@@ -527,6 +534,9 @@ func handleIncrBy(params internal.HandlerFuncParams) ([]byte, error) {
 			return nil, errors.New("unexpected type for currentValue") // Handle unexpected types
 		}
 		newValue = currentValueInt + incrValue // Increment the value by the specified amount
+		if (incrValue > 0 && newValue < currentValueInt) || (incrValue < 0 && newValue > currentValueInt) {
+			return nil, errors.New("increment or decrement would overflow")
+		}
 	}
 
 	// Set the new incremented value
@@ -619,6 +629,9 @@ func handleDecrBy(params internal.HandlerFuncParams) ([]byte, error) {
 	// Check if the key exists and its current value
 	if !ok || currentValue == nil {
 		// If key does not exist, initialize it with the decrement value
+		if decrValue == math.MinInt64 {
+			return nil, errors.New("increment or decrement would overflow")
+		}
 		newValue = decrValue * -1
 	} else {
 		// Use type switch to handle different types of currentValue
@@ -637,6 +650,9 @@ func handleDecrBy(params internal.HandlerFuncParams) ([]byte, error) {
 			return nil, errors.New("unexpected type for currentValue") // Handle unexpected types
 		}
 		newValue = currentValueInt - decrValue // decrement the value by the specified amount
+		if (decrValue > 0 && newValue > currentValueInt) || (decrValue < 0 && newValue < currentValueInt) {
+			return nil, errors.New("increment or decrement would overflow")
+		}
 	}
 
 	// Set the new incremented value
